@@ -9,6 +9,7 @@ import (
 	"encoding/json"
 	"flag"
 	"fmt"
+	"io"
 	"os"
 	"runtime"
 	"runtime/debug"
@@ -107,9 +108,9 @@ func TestVsim(t *testing.T) {
 			knownClasses[k] = true
 		}
 	}
-	out := os.Stdout
+	var out io.Writer = os.Stdout
 	if *flagOut != "" {
-		f, err := os.Create(*flagOut)
+		f, err := os.OpenFile(*flagOut, os.O_CREATE|os.O_WRONLY|os.O_APPEND, 0o644)
 		if err != nil {
 			t.Fatal(err)
 		}
@@ -205,6 +206,14 @@ func TestVsim(t *testing.T) {
 		}
 		if res.Violation != nil && *flagStop && ownsViolation(res.Violation.Prop) {
 			break
+		}
+		if res.Leak != "" {
+			// goroutines of this run are still blocked in its (dead) bubble; they must never meet
+			// the hooks of a later run: ask the orchestrator for a fresh process
+			if f, ok := out.(*os.File); ok {
+				_ = f.Sync()
+			}
+			os.Exit(4)
 		}
 		seed += *flagStride
 	}
